@@ -28,7 +28,7 @@ T_STL = [(r'^std::string$|^std::basic_string<char>$', 'struct nv_string'), (r'^s
          (r'basic_string<char>::iterator$|__normal_iterator<char \*', 'struct nv_sit'), (r'vector<int>::iterator$|__normal_iterator<int \*', 'struct nv_vit'),
          (r'basic_string<char>::size_type$', 'uint64_t')]
 T_IN = T_STL + [(r'basic_istream<char|^std::istream$|basic_ios<char', 'struct nv_istream')] + T_COMMON
-T_OUT = [(r'basic_ostream<char|^std::ostream$|basic_ios<char', 'struct nv_ostream')] + T_COMMON
+T_OUT = [(r'^std::string_view$|basic_string_view<char', 'struct nv_sv'), (r'basic_ostream<char|^std::ostream$|basic_ios<char', 'struct nv_ostream')] + T_COMMON
 
 # ------------------------------------------------------------------------------------------------ call maps (reader)
 # functions returning std::istream& print as functions returning a pointer: a call denotes the object -> (*f(...))
@@ -82,7 +82,8 @@ def hash_version(): return Fn('hash_version', TU, 'hash_version', flt='nano::det
 
 
 # ------------------------------------------------------------------------------------------------ call maps (writer)
-C_OUT = [(r'^write\|std::ostream &\(std::ostream &, unsigned int\)', '(*write_u32({&0}, {1}))'),
+C_OUT = [(r'^write\|std::ostream &\(std::ostream &, const char \*, const unsigned long\)', '(*write_ptr_char({&0}, {1}, {2}))'),
+         (r'^write\|std::ostream &\(std::ostream &, unsigned int\)', '(*write_u32({&0}, {1}))'),
          (r'^write\|std::ostream &\(std::ostream &, int\)', '(*write_i32({&0}, {1}))'),
          (r'^write\|std::ostream &\(std::ostream &, unsigned long\)', '(*write_u64({&0}, {1}))'),
          (r'^write\|std::ostream &\(std::ostream &, const double \*, const long\)', '(*write_ptr_f64({&0}, {1}, {2}))'),
@@ -91,7 +92,8 @@ C_OUT = [(r'^write\|std::ostream &\(std::ostream &, unsigned int\)', '(*write_u3
          (r'^operator!\|bool \(\) const\|std::basic_ios<char>', 'nv_oios_not({&0})'),
          (r'^hash_version\|', 'hash_version()'),
          (r'^hash\|uint64_t \(const (double|long) \*, const long\)', 'nv_hash({0}, {1})')]
-M_OUT = [(r'^setstate\|std::basic_ios<char>', 'nv_oios_setstate({self}, {0})'),
+M_OUT = [(r'^size\|std::basic_string_view<char>|^size\|std::string_view', '{self}->n'), (r'^data\|std::basic_string_view<char>|^data\|std::string_view', '{self}->p'),
+         (r'^setstate\|std::basic_ios<char>', 'nv_oios_setstate({self}, {0})'),
          (r'^write\|std::(basic_)?ostream', '(*nv_ostream_write({self}, {0}, {1}))'),
          (r'^data\|std::array<long', '{self}->d'),
          (r'^data\|nano::tensor_vector_storage_t', 'nv_tensor_data({self})'),
@@ -111,6 +113,8 @@ def wr_ptr(cname, cxx):
 def write_u32(): return wr_scalar('write_u32', 'unsigned int')
 def write_i32(): return wr_scalar('write_i32', 'int')
 def write_u64(): return wr_scalar('write_u64', 'unsigned long')
+def write_ptr_char(): return Fn('write_ptr_char', TU, 'write', flt='nano::write', select=ptypes('std::ostream &', 'const char *', 'const unsigned long'), **OUT)
+def write_string(): return Fn('write_string', TU, 'write', flt='nano::write', select=lambda d: astload.param_types(d) == ['std::ostream &', 'const std::string_view &'], **OUT)
 def write_castn(): return Fn('write_cast_n', TU, 'write_cast', flt='nano::write_cast', select=ptypes('std::ostream &', 'const long *', 'const unsigned long'), **OUT)
 
 
@@ -129,6 +133,20 @@ def configurable_write():
     return Fn('configurable_write', 'src/configurable.cpp', 'write', flt='configurable_t::write', self_struct='struct nv_configurable',
               types=CFG_T + T_OUT, members=M_OUT, uf_float=False,
               calls=[(r'^write\|std::ostream &\(std::ostream &, const std::vector<parameter_t> &\)', '(*nv_write_parameters({&0}, {&1}))')] + C_OUT)
+PAR_T = [(r'parameter_t::pair_range_t<long>$', 'struct nv_iprange'), (r'parameter_t::range_t<long>$', 'struct nv_irange'), (r'^nano::LEorLT$', 'int32_t'),
+         (r'^nano::string_t$', 'struct nv_string')]
+PAR_C = [(r'^read\|std::istream &\(std::istream &, long &\)', '(*read_i64({&0}, {&1}))'), (r'^make_comp\|', 'nv_make_comp({0})')]
+def read_i64(): return Fn('read_i64', 'src/parameter.cpp', 'read', flt='nano::read', select=ptypes('std::istream &', 'long &'), **IN)
+def param_read(cname, cxx):
+    return Fn(cname, 'src/parameter.cpp', 'read', flt='read', uf_float=False, types=PAR_T + T_IN, calls=PAR_C + C_IN, members=M_IN,
+              select=lambda d: astload.template_args(d) == ['long'] and astload.param_types(d)[2:] == [f'parameter_t::{cxx}<long>'],
+              aggregates=['struct nv_irange', 'struct nv_iprange'])
+PAR_WC = [(r'^write\|std::ostream &\(std::ostream &, long\)', '(*write_i64({&0}, {1}))'),
+          (r'^write\|std::ostream &\(std::ostream &, const std::string_view &\)', '(*nv_write_name({&0}))'), (r'^make_flag\|', 'nv_make_flag({0})')]
+def write_i64(): return Fn('write_i64', 'src/parameter.cpp', 'write', flt='nano::write', select=ptypes('std::ostream &', 'long'), **OUT)
+def param_write(cname, cxx):
+    return Fn(cname, 'src/parameter.cpp', 'write', flt='write', uf_float=False, types=PAR_T + T_OUT, calls=PAR_WC + C_OUT, members=M_OUT,
+              select=lambda d: astload.template_args(d) == ['long'] and astload.param_types(d)[3:] == [f'const parameter_t::{cxx}<long> &'])
 def hash_combine(): return Fn('hash_combine', TU, 'hash_combine', flt='nano::detail::hash_combine', uf_float=False)
 def hash_fn(cname, scalar):
     return Fn(cname, TU, 'hash', flt='nano::detail::hash', select=targs(scalar, 'long'), uf_float=False,
@@ -196,6 +214,7 @@ def build(tier):
         # tensor writer targets keep it on and discharge it from the stated dims < 2^31 precondition
         Target('write_cast_n', [write_castn(), write_i32()], P, checks=NOCONV),
         Target('write_ptr_f64', [wr_ptr('write_ptr_f64', 'double')], P),
+        Target('write_string', [write_string(), write_u32(), write_ptr_char()], P),
     ]
     targets += [
         Target('read_string', [read_string(), read_u32(), read_char()], P),
@@ -204,6 +223,14 @@ def build(tier):
     targets += [
         Target('configurable_read', [configurable_read(), read_i32()], D + 'configurable.h'),
         Target('configurable_write', [configurable_write(), write_i32()], D + 'configurable.h'),
+    ]
+    targets += [
+        Target('param_read_irange', [param_read('param_read_irange', 'range_t'), read_i64(), read_u32()], D + 'parameter.h'),
+        Target('param_read_iprange', [param_read('param_read_iprange', 'pair_range_t'), read_i64(), read_u32()], D + 'parameter.h'),
+    ]
+    targets += [
+        Target('param_write_irange', [param_write('param_write_irange', 'range_t'), write_i64(), write_u32(), write_i32()], D + 'parameter.h'),
+        Target('param_write_iprange', [param_write('param_write_iprange', 'pair_range_t'), write_i64(), write_u32(), write_i32()], D + 'parameter.h'),
     ]
     targets += [
         Target('hash_combine', [hash_combine()], P),
